@@ -9,7 +9,7 @@ import (
 
 // Logical threads (verifParallel): closures run one at a time, each in its own goroutine with a baton;
 // the scheduler (the interpreter's main goroutine) picks the next runnable thread at every scheduling
-// point - before each Lock/RLock of the session mutexes (and when a thread ends) - and the pick is a decision explored
+// point - before each Lock/RLock and after each Unlock/RUnlock of the session mutexes (and when a thread ends) - and the pick is a decision explored
 // like any other branch. Mutual exclusion follows the sync.Mutex / sync.RWMutex contract.
 
 type thread struct {
@@ -107,8 +107,14 @@ func (m *Machine) threadUnlock(fr *frame, p *Val, rd bool) {
 		}
 		ls.wHeld, ls.writer = false, nil
 	}
-	// no scheduling point after a release: a thread runs on to its next acquisition (or its end); the
-	// interleavings lost are those that differ only in code executed between an Unlock and the next Lock
+	// a scheduling point after a release too: what a thread does between an Unlock and its next Lock (or its end) is
+	// unprotected, and another thread may run right there. To keep the number of schedules manageable these
+	// preemptions are bounded per path by the harness (verifPreemptAtRelease(n), default 0): once used up, a thread
+	// runs on to its next Lock
+	if t != nil && m.relPreempts < m.relLimit {
+		m.relYield = t
+		m.yield(t)
+	}
 }
 
 // holds reports whether the current logical thread (or the main thread) holds the mutex.
@@ -214,6 +220,10 @@ func (m *Machine) runParallel(fr *frame, fns []Val) {
 			abort(&pathEnd{kind: "deadlock", msg: fmt.Sprintf("all %d logical threads blocked at %s", alive, m.posStr(fr))})
 		}
 		t := runnable[m.chooseSched(len(runnable))]
+		if m.relYield != nil && m.relYield != t {
+			m.relPreempts++ // another thread was let in right after a release
+		}
+		m.relYield = nil
 		m.sched = append(m.sched, t.id)
 		t.resume <- struct{}{}
 		ev := <-m.events
@@ -244,6 +254,10 @@ func init() {
 	}
 	apiStubs["verifUnlock"] = func(m *Machine, fr *frame, a []Val) Val {
 		m.threadUnlock(fr, a[0].(*Val), a[1].(bool))
+		return nil
+	}
+	apiStubs["verifPreemptAtRelease"] = func(m *Machine, fr *frame, a []Val) Val {
+		m.relLimit = int(a[0].(int64))
 		return nil
 	}
 	apiStubs["verifHeld"] = func(m *Machine, fr *frame, a []Val) Val {
